@@ -209,7 +209,8 @@ def spec_timelike_to(draw, n, shape, dmax):
     cnt = gen.prod(shape)
     return dict(ctor="timelike_to", n=n, shape=shape,
                 pts=draw(kpoints(n, cnt, _rmax(dmax))),
-                scales=[draw(gen.scalars_pm(0.2, 5.0)) for _ in range(cnt)],
+                # (a raw vector: any non-zero multiple of it names the same point)
+                scales=[draw(gen.scalars_any()) for _ in range(cnt)],
                 fo=draw(st.sampled_from([True, False, None])))
 
 
@@ -227,7 +228,7 @@ def _normals(draw, n, cnt, amax):
             out.append({"v": [draw(st.sampled_from(ok))] + vs})
         else:
             a = draw(fl(-amax, amax)) if draw(st.integers(0, 6)) else 0.0
-            out.append({"a": a, "d": draw(sdir(n)), "s": draw(gen.scalars_pm(0.2, 5.0))})
+            out.append({"a": a, "d": draw(sdir(n)), "s": draw(gen.scalars_any())})
     return out
 
 
@@ -807,7 +808,11 @@ def build(spec):
             G.cartan_matrix(params)
             G.tits_vinberg_rep(params)
         rep = G.hyperbolic_rep()
-        word = [names[i] for i in spec["word"]]
+        # the word in the generators - every other letter written as the inverse letter (a
+        # reflection is its own inverse, and the representation knows both names)
+        word = [names[i] if k % 3 else names[i].upper() for k, i in enumerate(spec["word"])]
+        if any(x != x.lower() for x in word):
+            lab.append("word-with-inverse-letters")
         simple = all(len(x) == 1 for x in names)
         if simple and len(word) % 2 == 0:
             T = rep["".join(word)]
